@@ -5269,6 +5269,11 @@ class Arc(Curve):
             if self.start == self.end and self.sweep == 0:
                 # This is equivalent of omitting the segment
                 return [self.start] * len(positions)
+            if self.sweep == 0:
+                # A zero radius arc is the straight line between its endpoints.
+                return [
+                    Point.towards(self.start, self.end, pos) for pos in positions
+                ]
 
             start_t = self.get_start_t()
             return [
@@ -5350,7 +5355,7 @@ class Arc(Curve):
         approximation, as for cubic Bézier curves.
         """
         if self.sweep == 0:
-            return 0
+            return Point.distance(self.start, self.end)
         if self.start == self.end and self.sweep == 0:
             # This is equivalent of omitting the segment
             return 0
@@ -5689,7 +5694,12 @@ class Arc(Curve):
         Code from: https://github.com/mathandy/svgpathtools
         """
         if self.sweep == 0:
-            return self.start.x, self.start.y, self.end.x, self.end.y
+            return (
+                min(self.start.x, self.end.x),
+                min(self.start.y, self.end.y),
+                max(self.start.x, self.end.x),
+                max(self.start.y, self.end.y),
+            )
         phi = self.get_rotation().as_radians
         if cos(phi) == 0:
             atan_x = tau / 4.0
